@@ -7,6 +7,8 @@ C20 line-protocol driver.   (`.` = empty/absent, `=`+payload = present, byte str
   flt  <filter> <key> <kind> <val> <tables>      one field filter on one field
   site <c> <E> <hostclass> <rw> <route> <status> <remote> <qs> <Tin> <Tadd> <Tset> <Tup>
        <Tmid> <Tout> <Tupo> <Tresp>              one request through a provisioned server
+  opts <blocks> <sites>                          Caddyfile `servers { log_credentials }` global options adapted for the
+                                                 given sites; blocks = `.` | listener:flag;… ; sites = port,port:haslog;…
   fenc <nwith> <cfg> <tree> <tables>             one log entry through a provisioned FilterEncoder
                                                  cfg = `.` | path@filter+path@filter ; tree = `.` | tokens joined by `/`:
                                                  o:<key> … c (object), l:<key>:<kind>:<val> (leaf); keys ascending per object
@@ -18,6 +20,7 @@ tables = `.` | rows joined by `;` (see `Tables`).
 -/
 import CaddyModel.C20.Model
 import CaddyModel.C20.FEnc
+import CaddyModel.C20.Plumb
 
 namespace CaddyModel.C20
 
@@ -367,6 +370,23 @@ def showTree (l : List Node) : String :=
   | [] => "."
   | toks => "/".intercalate toks
 
+def parseBlocks (s : String) : Option (List OptBlock) :=
+  if s == "." then some [] else
+  (s.splitOn ";").mapM fun e =>
+    match e.splitOn ":" with
+    | [a, f] => do pure ⟨(← Hex.decode a), (← parseBool f)⟩
+    | _ => none
+
+def parseSites (s : String) : Option (List Srv) :=
+  (s.splitOn ";").mapM fun e =>
+    match e.splitOn ":" with
+    | [ports, f] => do
+      let l ← (ports.splitOn ",").mapM Hex.decode
+      if l.any (·.isEmpty) then none else pure ⟨l, (← parseBool f)⟩
+    | _ => none
+
+def showB (b : Bool) : String := if b then "1" else "0"
+
 def handle : List String → String
   | ["hdr", c, h] =>
     match parseBool c, parseHdr h with
@@ -382,6 +402,11 @@ def handle : List String → String
     match parseFilter filter, Hex.decode key, parseVal kind val, parseTables tables with
     | some f, some k, some v, some t => "ok " ++ showField (applyFilter (oraclesOf t) f ⟨k, v⟩)
     | _, _, _, _ => "bad-op"
+  | ["opts", blocks, sites] =>
+    match parseBlocks blocks, parseSites sites with
+    | some bs, some ss =>
+      " ".intercalate ("ok" :: ss.map fun s => showB (applyOpts bs s).1 ++ showB (applyOpts bs s).2 ++ showB (effectiveCreds (applyOpts bs s)))
+    | _, _ => "bad-op"
   | ["fenc", nwith, cfg, tree, tables] =>
     match nwith.toNat?, parseCfg cfg, parseTree tree, parseTables tables with
     | some _, some cfg, some tree, some t => "ok " ++ showTree (filterEncode (oraclesOf t) cfg tree)
